@@ -133,7 +133,21 @@ impl RuleConfiguration for RemoveAttribute {
     }
 
     fn serialize_to_properties(&self) -> RuleProperties {
-        RuleProperties::new()
+        let mut properties = RuleProperties::new();
+
+        if !self.r#match.is_empty() {
+            properties.insert(
+                "match".to_owned(),
+                crate::rules::RulePropertyValue::StringList(
+                    self.r#match
+                        .iter()
+                        .map(|pattern| pattern.as_str().to_owned())
+                        .collect(),
+                ),
+            );
+        }
+
+        properties
     }
 
     fn set_metadata(&mut self, metadata: RuleMetadata) {
